@@ -29,6 +29,20 @@ def check_axioms(R, prog, P, members):
             want[(tuple(tuple(x) for x in quants), tuple(guards), builder, tuple(args))] = text
         got = {k2: e for k, e in got.items() for k2 in split_conditionals(k)}
         want = {k2: line for k, line in want.items() for k2 in split_conditionals(k)}
+        detail = ""
+        if set(got) != set(want):
+            # the schema differs from the reviewed table: is the generator, folded on small instances over a recording formula, still
+            # the reviewed one (sa/familyfold.py)?
+            from .. import familyfold
+            sem = familyfold.compare(prog, mod, q)
+            if sem[0] is True:
+                total += len(want)
+                R.ok("AXIOM-SCHEMA", "%s: %s" % (q, sem[1]), fi.key)
+                R.unknown("AXIOM-SCHEMA", "%s schema" % q, fi.key,
+                          "shape not recognised (the emission schema differs from the reviewed table); the meaning of the fragment was confirmed by folding")
+                continue
+            if sem[0] is False:
+                detail = " [folding: %s]" % sem[1][:400]
         for k, line in want.items():
             total += 1
             if k in got:
@@ -36,8 +50,8 @@ def check_axioms(R, prog, P, members):
             else:
                 near = [e.text() for e in ems if e.builder == k[2]]
                 R.bad(Finding(P, "AXIOM-SCHEMA", fi, "%s lacks axiom: %s" % (q, line.strip()[:100]),
-                              "the documented axiom `%s` is not what the generator emits; emissions with the same builder: %s"
-                              % (line.strip(), (" | ".join(near))[:400] or "none")))
+                              "the documented axiom `%s` is not what the generator emits; emissions with the same builder: %s%s"
+                              % (line.strip(), (" | ".join(near))[:400] or "none", detail)))
         for k, e in got.items():
             if k not in want:
                 R.bad(Finding(P, "AXIOM-SCHEMA", fi, "%s extra axiom: %s" % (q, e.text()[:100]),
